@@ -101,7 +101,7 @@ func nearMisses(s string) []string {
 func genC11(t *rapid.T) c11Case {
 	s := genC11String(t, "s")
 	c := c11Case{S: s, Near: nearMisses(s)}
-	c.Op = rapid.SampledFrom([]string{"=", "!=", "in", "notin", "contains", "notcontains", "anyof=", "anyofin", "allof!=", "anyofcontains"}).Draw(t, "op")
+	c.Op = rapid.SampledFrom([]string{"=", "!=", "in", "notin", "contains", "notcontains", "anyof=", "anyofin", "allof!=", "anyofcontains", "inlong-low", "inlong-high", "notinlong-high"}).Draw(t, "op")
 	c.Other = genC11String(t, "other")
 	return c
 }
@@ -190,6 +190,27 @@ func runC11(c c11Case) kit.Result {
 	case "notin":
 		filter = "sa not in [" + lit + "," + quoteZql(c.Other) + "]"
 		want = func(v *string) bool { return v == nil || (*v != c.S && *v != c.Other) }
+	case "inlong-low", "inlong-high", "notinlong-high":
+		// a list of 10-11 literals in which s is the smallest (fillers sort after it) or the greatest element
+		var items []string
+		for i := 0; i < 9; i++ {
+			f := fmt.Sprintf("~~~filler%d", i)
+			if c.Op != "inlong-low" {
+				f = fmt.Sprintf(" !filler%d", i)
+			}
+			items = append(items, quoteZql(f))
+		}
+		items = append(items[:4], append([]string{lit}, items[4:]...)...)
+		if c.Other != c.S {
+			items = append(items, quoteZql(c.Other))
+		}
+		if c.Op == "notinlong-high" {
+			filter = "sa not in [" + strings.Join(items, ", ") + "]"
+			want = func(v *string) bool { return v == nil || (*v != c.S && *v != c.Other) }
+		} else {
+			filter = "sa in [" + strings.Join(items, ",") + "]"
+			want = func(v *string) bool { return v != nil && (*v == c.S || *v == c.Other) }
+		}
 	case "contains":
 		filter = "sa contains " + lit
 		want = func(v *string) bool { return v != nil && strings.Contains(*v, c.S) }
